@@ -200,7 +200,7 @@ func (s *sys) request(rewrite bool, cookie string) (served bool, seen string, co
 }
 
 type opDesc struct {
-	kind   int // 0 request, 1 request+rewrite, 2 upsert, 3 remove, 4 cookie request + rewrite, 5 cookie request, 6 request while one server is rated bad, 7 advance the clock
+	kind   int // 9 refused upsert (negative weight), 8 upsert while the meter factory fails, 0 request, 1 request+rewrite, 2 upsert, 3 remove, 4 cookie request + rewrite, 5 cookie request, 6 request while one server is rated bad, 7 advance the clock
 	url    int
 	weight int // -1 = no option
 }
@@ -231,6 +231,11 @@ func alphabet(v variant, tier string) ([]string, []opDesc) {
 			names = append(names, fmt.Sprintf("UpsertWhileMeterFactoryFails(u%d)", u))
 			descs = append(descs, opDesc{8, u, -1})
 		}
+	}
+	// an administration call that is refused (negative weight): nothing may change, whether or not the server is a member
+	for _, u := range []int{0, 1} {
+		names = append(names, fmt.Sprintf("UpsertRefused(u%d,w=-1)", u))
+		descs = append(descs, opDesc{9, u, -1})
 	}
 	for u := 0; u < nurl; u++ {
 		names = append(names, fmt.Sprintf("Upsert(u%d)", u))
@@ -289,6 +294,15 @@ func model(v variant, tier string, depth int) *lib.Model[*sys] {
 				s.ref.upsert(u, -1) // a re-add of a known server needs no new meter and succeeds
 			}
 			return fmt.Sprintf("%v/known=%v", err, known)
+		case 9:
+			known := s.ref.find(identity(u)) >= 0
+			s.upserting = identity(u)
+			err := s.front().UpsertServer(u, roundrobin.Weight(-1))
+			s.upserting = ""
+			if err == nil {
+				return fmt.Sprintf("ACCEPTED/known=%v", known)
+			}
+			return fmt.Sprintf("refused/known=%v", known)
 		case 2:
 			var opts []roundrobin.ServerOption
 			if d.weight >= 0 {
@@ -506,6 +520,11 @@ func checkLast(s *sys, m *lib.Model[*sys], descs []opDesc, hist []int, obs []str
 				rep.Violate(prop+":failed-add-reported-success:"+vk, "UpsertServer succeeded although the meter for the new server could not be built", what())
 			}
 			rep.Count("failing_adds")
+		case 9:
+			if strings.HasPrefix(o, "ACCEPTED") {
+				rep.Violate(prop+":invalid-weight-accepted:"+vk, "UpsertServer(u, Weight(-1)) reported success", what())
+			}
+			rep.Count("refused_upserts")
 		case 3:
 			if strings.HasSuffix(o, "known=false") && strings.HasPrefix(o, "<nil>") {
 				rep.Violate(prop+":remove-unknown-succeeded:"+vk, "RemoveServer of a server that is not in the pool returned no error", what())
